@@ -369,6 +369,7 @@ class Context:
         self.harness_errors = []
         self.notes = {}
         self.exhaustive = None
+        self.aux = []
         self.t0 = time.time()
         self._pool = None
 
@@ -395,6 +396,8 @@ class Context:
         unlisted = self.stats.add(case, res, self.known)
         if unlisted:
             self.violations.append((case, unlisted))
+        if 'aux' in res:
+            self.aux.append(res['aux'])
 
     def note(self, key, value):
         self.notes[key] = value
